@@ -26,6 +26,7 @@ from rsparse import ParseError
 
 FILE = "src/lib.rs"
 NAT, LAYOUT, VAL, CLO, SLICEV, SRC, LAYRES, UNIT = "nat", "layout", "val", "clo", "slicev", "src", "layres", "unit"
+ITER, OPTVAL = "iter", "optval"     # an `ExactSizeIterator` (its items, and what its `len()` claims); `Option<T>`
 LEAN_TY = {NAT: "Nat", VAL: "RsT.Val", CLO: "RsT.Clo", SLICEV: "(Nat × Nat)", SRC: "(List RsT.Val)", UNIT: "Unit", LAYOUT: "Rs.Layout"}
 
 
@@ -49,6 +50,14 @@ FUNCS = [
     ("try_alloc_slice_fill_with", "pub fn try_alloc_slice_fill_with", "t_try_alloc_slice_fill_with", True, [("len", NAT), ("f", CLO)], SLICEV),
     ("alloc_slice_fill_copy", "pub fn alloc_slice_fill_copy", "t_alloc_slice_fill_copy", True, [("len", NAT), ("value", VAL)], SLICEV),
     ("try_alloc_slice_fill_copy", "pub fn try_alloc_slice_fill_copy", "t_try_alloc_slice_fill_copy", True, [("len", NAT), ("value", VAL)], SLICEV),
+    ("alloc_slice_clone", "pub fn alloc_slice_clone", "t_alloc_slice_clone", True, [("#clone", "trait"), ("src", SRC)], SLICEV),
+    ("try_alloc_slice_clone", "pub fn try_alloc_slice_clone", "t_try_alloc_slice_clone", True, [("#clone", "trait"), ("src", SRC)], SLICEV),
+    ("alloc_slice_fill_clone", "pub fn alloc_slice_fill_clone", "t_alloc_slice_fill_clone", True, [("#clone", "trait"), ("len", NAT), ("value", VAL)], SLICEV),
+    ("try_alloc_slice_fill_clone", "pub fn try_alloc_slice_fill_clone", "t_try_alloc_slice_fill_clone", True, [("#clone", "trait"), ("len", NAT), ("value", VAL)], SLICEV),
+    ("alloc_slice_fill_default", "pub fn alloc_slice_fill_default", "t_alloc_slice_fill_default", True, [("#default", "trait"), ("len", NAT)], SLICEV),
+    ("try_alloc_slice_fill_default", "pub fn try_alloc_slice_fill_default", "t_try_alloc_slice_fill_default", True, [("#default", "trait"), ("len", NAT)], SLICEV),
+    ("alloc_slice_fill_iter", "pub fn alloc_slice_fill_iter", "t_alloc_slice_fill_iter", True, [("iter", ITER)], SLICEV),
+    ("try_alloc_slice_fill_iter", "pub fn try_alloc_slice_fill_iter", "t_try_alloc_slice_fill_iter", True, [("iter", ITER)], SLICEV),
 ]
 METHODS = {}      # rust method name -> (lean name, generic, ret) of the translated methods of `Bump`
 
@@ -97,6 +106,10 @@ class T:
             # `|| x` / `|_| x` with x a value in scope: the constant closure
             if all(p[0] == "pwild" for p in e[1]) and e[2][0] == "path" and len(e[2][1]) == 1 and e[2][1][0] in env and env[e[2][1][0]][1] == VAL:
                 return k(f"(RsT.constClo {env[e[2][1][0]][0]})", CLO)
+            if all(p[0] == "pwild" for p in e[1]):
+                # `|_| body`: a closure whose body runs on the state current at the call
+                body = self.X(e[2], env, lambda v, tv: f"(t, Outcome.ok {v})")
+                return k(f"(fun _ t =>\n{body})", CLO)
             raise Untranslatable("closure literal")
         if kind == "try":
             return self.X(e[1], env, k)       # `?`: `err` already propagates through `RsT.bind`
@@ -105,6 +118,8 @@ class T:
                           f"(if {a} == {b} then\n{k('()', UNIT)}\nelse {self.bad('debug_assert_eq!')})"))
         if kind == "for":
             return self.FOR(e, env, k)
+        if kind == "foriter":
+            return self.FORENUM(e, env, k)
         if kind == "call" and e[1][0] == "path":
             segs, args = e[1][1], e[2]
             if segs == ["Layout", "new"] and not args:
@@ -136,6 +151,8 @@ class T:
                 return self.X(args[0], env, k)
             if segs == ["Ok"] and len(args) == 1:
                 return self.X(args[0], env, k)
+            if segs == ["T", "default"] and not args and "#default" in env:
+                return self.bindc("tdefault", VAL, k)
             if len(segs) == 1 and segs[0] in env and env[segs[0]][1] == CLO:
                 if not args:
                     return self.bindc(f"RsT.call {env[segs[0]][0]} 0", VAL, k)
@@ -167,6 +184,13 @@ class T:
 
             def kr(t, ty):
                 if name in ("cast", "as_ptr") and not args and ty == NAT: return k(t, NAT)
+                if name == "clone" and not args and ty == VAL and "#clone" in env: return self.bindc(f"tclone {t}", VAL, k)
+                if name == "into_iter" and not args and ty == ITER: return k(t, ITER)
+                if name == "len" and not args and ty == ITER: return k(f"{t}_claimed", NAT)
+                if name == "next" and not args and ty == ITER: return self.bindc(f"RsT.iter_next {t}", OPTVAL, k)
+                if name == "expect" and ty == OPTVAL:
+                    x = self.fresh("x")
+                    return f"(match {t} with\n| none => (t, Outcome.panic)\n| some {x} =>\n{k(x, VAL)})"
                 if name == "as_bytes" and not args and ty == SRC: return k(t, SRC)
                 if name == "len" and not args and ty == SRC: return k(f"{t}.length", NAT)
                 if name == "add" and len(args) == 1 and ty == NAT:
@@ -189,7 +213,7 @@ class T:
         if pat[0] != "pid" or rng[0] != "range" or rng[1] != ("int", 0):
             raise Untranslatable("loop shape")
         name = f"{self.lean}.loop"
-        captured = [(ln, ty) for _, (ln, ty) in env.items() if ty in LEAN_TY]
+        captured = [(ln, ty) for kk, (ln, ty) in env.items() if ty in LEAN_TY and not kk.startswith("#")]
         cparams = " ".join(f"({ln} : {LEAN_TY[ty]})" for ln, ty in captured)
         cargs = " ".join(ln for ln, _ in captured)
         tys = "(esz eal : Nat) " if self.generic else ""
@@ -201,6 +225,27 @@ class T:
         self.defs.append(f"def {name} (E M : Nat) {tys}{cparams} : Nat → Nat → RsT.TS → RsT.TS × Outcome Unit\n"
                          f"  | 0, _, t => (t, Outcome.ok ())\n  | {rest} + 1, {i}, t =>\n" + indent(inner, 2) + "\n")
         return self.X(rng[2], env, lambda n, tn: self.bindc(f"Gen.Fn.{name} E M {targs}{cargs} {n} 0", UNIT, k))
+
+    def FORENUM(self, e, env, k):
+        """`for (i, val) in src.iter().cloned().enumerate() { … }`: recursive on the list, the index counted up; the element is
+        cloned when the iterator is advanced (the `Cloned` adapter), i.e. at the head of each iteration"""
+        _, pat, it, body = e
+        ok = (pat[0] == "ptuple" and len(pat[1]) == 2 and all(q[0] == "pid" for q in pat[1]) and it[0] == "mcall" and it[2] == "enumerate"
+              and it[1][0] == "mcall" and it[1][2] == "cloned" and it[1][1][0] == "mcall" and it[1][1][2] == "iter" and it[1][1][1][0] == "path"
+              and env.get(it[1][1][1][1][0], (None, None))[1] == SRC and "#clone" in env)
+        if not ok: raise Untranslatable("for over this iterator")
+        srcv = env[it[1][1][1][1][0]][0]
+        name = f"{self.lean}.loop"
+        captured = [(ln, ty) for kk, (ln, ty) in env.items() if ty in LEAN_TY and not kk.startswith("#")]
+        cparams = " ".join(f"({ln} : {LEAN_TY[ty]})" for ln, ty in captured)
+        cargs = " ".join(ln for ln, _ in captured)
+        x, rest, i, val = self.fresh("x"), self.fresh("rest"), self.fresh(pat[1][0][1]), self.fresh(pat[1][1][1])
+        envl = dict(env); envl[pat[1][0][1]] = (i, NAT); envl[pat[1][1][1]] = (val, VAL)
+        again = f"(Gen.Fn.{name} E M esz eal tclone {cargs} {rest} ({i} + 1) t)"
+        inner = f"(RsT.bind (tclone {x} t) fun t {val} =>\n{self.B(body, envl, lambda t_, ty_, e2: again)})"
+        self.defs.append(f"def {name} (E M : Nat) (esz eal : Nat) (tclone : RsT.Val → RsT.TS → RsT.TS × Outcome RsT.Val) {cparams} : List RsT.Val → Nat → RsT.TS → RsT.TS × Outcome Unit\n"
+                         f"  | [], _, t => (t, Outcome.ok ())\n  | {x} :: {rest}, {i}, t =>\n" + indent(inner, 2) + "\n")
+        return self.bindc(f"Gen.Fn.{name} E M esz eal tclone {cargs} {srcv} 0", UNIT, k)
 
     def B(self, blk, env, k):
         """block: k(term, type, env)"""
@@ -216,6 +261,9 @@ class T:
             if st[0] == "let" and st[1][0] == "pid":
                 def kl(t, ty):
                     if ty in (LAYRES,): raise Untranslatable("unresolved Result bound to a local")
+                    if ty == ITER:
+                        e2 = dict(env_); e2[st[1][1]] = (t, ty)
+                        return go(i + 1, e2)
                     ln = self.fresh(st[1][1]); e2 = dict(env_); e2[st[1][1]] = (ln, ty)
                     return f"let {ln} := {t};\n{go(i + 1, e2)}"
                 return self.X(st[2], env_, kl)
@@ -259,6 +307,7 @@ def translate_all(repo):
     order = sorted(range(len(FUNCS)), key=lambda i: (0 if "inner_writer" in FUNCS[i][0] else
                                                        1 if FUNCS[i][0] in ("alloc_with", "try_alloc_with", "alloc_slice_copy", "try_alloc_slice_copy",
                                                                             "alloc_slice_fill_with", "try_alloc_slice_fill_with") else 2, i))
+    LEAN_TY["trait"] = "Unit"
     for idx in order:
         name, anchor, lean, generic, params, ret = FUNCS[idx]
         try:
@@ -268,7 +317,13 @@ def translate_all(repo):
             env = {n: (n, ty) for n, ty in params}
             text = t.B(body, env, lambda v, ty, e2: f"(t, Outcome.ok {v})")
             tys = "(esz eal : Nat) " if generic else ""
-            ps = " ".join(f"({n} : {LEAN_TY[ty]})" for n, ty in params)
+            pl = []
+            for n, ty in params:
+                if n == "#clone": pl.append("(tclone : RsT.Val → RsT.TS → RsT.TS × Outcome RsT.Val)")
+                elif n == "#default": pl.append("(tdefault : RsT.TS → RsT.TS × Outcome RsT.Val)")
+                elif ty == ITER: pl.append(f"({n} : List RsT.Val) ({n}_claimed : Nat)")
+                else: pl.append(f"({n} : {LEAN_TY[ty]})")
+            ps = " ".join(pl)
             out.append("\n".join(t.defs) + f"/-- `fn {name}`{' (nested in `' + anchor[7:] + '`)' if name == 'inner_writer' else ''} -/\n"
                        f"def {lean} (E M : Nat) {tys}{ps} (t : RsT.TS) : RsT.TS × Outcome {LEAN_TY[ret]} :=\n" + indent(text) + "\n")
             report[lean] = "ok"
